@@ -117,6 +117,8 @@ class SimFile:
             ino.data.extend(data)
         if fs.write_log is not None:
             fs.write_log.append((ino.ino, pos, len(data)))
+        if fs.on_write is not None:
+            fs.on_write(ino.ino, pos, data, self.proc)
         self.pos = pos + len(data)
 
     # -- writing --------------------------------------------------------------------------------------------------------
@@ -259,6 +261,7 @@ class SimFS:
         self.on_event = None         # hook(kind, path, info): 'create', 'overwrite', 'content_changed', 'unlink', 'rename'
         self.read_log = None         # list or None: (ino, offset, nbytes) per read call
         self.write_log = None        # list or None: (ino, offset, nbytes) per write call that reached an inode
+        self.on_write = None         # hook(ino, offset, data, proc) when bytes reach an inode
         self.short_write = None      # hook(handle, nbytes) -> split point or None (thorough-tier sub-scenario)
         self.lost_buffered = 0       # bytes that died in write buffers of crashed processes (informational)
 
